@@ -612,6 +612,52 @@ def grade_selection_orders(R, rng, tier):
                     break
 
 
+def constants_and_keywords(R, rng, tier):
+    """numpy-integer constants inside registered functions (several functions on one algebra, constants that hash alike: -1 and -2),
+    and keyword calls of registered functions: whenever the registered function returns, it returns what the plain function returns."""
+    import numpy as np
+    for spec in ({'pqr': (3, 0, 1)}, {'sig': [1, 1]}):
+        alg = algs.make_impl(spec)
+        canon = [int(k) for k in alg.canon2bin.values()]
+        ks = rng.sample(canon, 3)
+        v = oc.make_mv(alg, ks, [float(rng.randint(1, 6)) for _ in ks])
+        consts = [np.int64(-1), np.int64(-2), np.int64(3), np.int64(0), np.int64(2 ** 61 - 1), np.int32(-2)]
+        for c in consts:
+            def times(x, c=c):
+                return x * c
+            def plus(x, c=c):
+                return c + x
+            for f in (times, plus):
+                R.count('route=numpy-constant'); R.case(('numpy-constant', repr(spec), f.__name__, int(c)), True)
+                want = as_items(f(v))
+                try:
+                    got = as_items(alg.register(f)(v))
+                except Exception as e:  # noqa
+                    continue                       # raising is allowed (never a DIFFERENT value)
+                if not same_items(want, got, exact=False):
+                    R.violation({'clause': 'numpy-constant', 'route': 'register'},
+                                {'algebra': spec, 'constant': int(c), 'function': f.__name__, 'keys': ks, 'values': [float(x_) for x_ in v.values()], 'const_fn': True},
+                                f'def f(x): return {"x * c" if f is times else "c + x"} with c = np.{type(c).__name__}({int(c)}) (after functions with the constants {[int(q) for q in consts[:consts.index(c)]]} '
+                                f'were registered on the same algebra): f returns {want}, alg.register(f) returns {got} in Algebra({algs.describe(spec)})')
+        # keyword calls
+        p = oc.make_mv(alg, ks[:2], [2.0, 5.0])
+        def blend(x, rotor=1, onto=1):
+            return x * rotor + onto
+        reg = alg.register(blend)
+        for label, call in (('reg(v, onto=p)', lambda f_: f_(v, onto=p)), ('reg(v, rotor=p)', lambda f_: f_(v, rotor=p)), ('reg(v, onto=p, rotor=2)', lambda f_: f_(v, onto=p, rotor=2)),
+                            ('reg(x=v, rotor=p, onto=p)', lambda f_: f_(x=v, rotor=p, onto=p))):
+            R.count('route=keyword-call'); R.case(('keyword-call', repr(spec), label), True)
+            want = as_items(call(blend))
+            try:
+                got = as_items(call(reg))
+            except Exception:  # noqa   (the clean tree raises TypeError for every keyword call)
+                continue
+            if not same_items(want, got, exact=False):
+                R.violation({'clause': 'keyword-call', 'route': 'register'}, {'algebra': spec, 'call': label, 'keyword_call': True},
+                            f'def blend(x, rotor=1, onto=1): return x * rotor + onto; {label.replace("reg", "alg.register(blend)")} returns {got}, the plain function {want} '
+                            f'in Algebra({algs.describe(spec)})')
+
+
 def same_name_helpers(R, rng, tier):
     for it in range(6 if tier == 'quick' else 80):
         spec = random_spec(rng) if it % 2 else {'sig': [1, 1, 1, 0][:rng.choice((2, 3, 4))], 'start': None}
@@ -648,6 +694,7 @@ def run(R, tier):
     same_name_helpers(R, rng, tier)
     accessor_spellings(R, rng, tier)
     grade_selection_orders(R, rng, tier)
+    constants_and_keywords(R, rng, tier)
     quick = tier == 'quick'
     # 1. every one-level form, 2. two-level trees over the reduced operand set
     # (a named algebra: blades such as e20 / e01 are not spelled in the listing order of their generators)
@@ -703,6 +750,11 @@ def replay(R, rec):
     route = rec.get('class', {}).get('route', 'register')
     alg = algs.make_impl(r['algebra'])
     env = make_env(alg)
+    if r.get('const_fn') or r.get('keyword_call'):
+        R2 = kv.Run(rec['property'], rec.get('tier', 'quick'), int(rec.get('seed', 1)))
+        R2.findings = []
+        constants_and_keywords(R2, R2.rng, R2.tier)
+        return not getattr(R2, 'all_failures', [])
     if r.get('grade_selection') is not None:
         x = oc.make_mv(alg, list(r['keys']), list(r['values']))
         f = lambda v, gs=tuple(r['grade_selection']): v.grade(*gs)
